@@ -72,6 +72,22 @@ CHECKS["C13"] = dict(
     note="trusted: renderer, integer -> bits and printed-literal projection, TLC; exact halves are not used; hex literals the money tokenizer claims are a listed known finding",
     ref="7 C13")
 
+CHECKS["C05"] = dict(
+    technique="TLA+ spec (Percent.tla on exact rationals) model-checked by TLC; TLC-enumerated percentage phrases replayed into the code; random traces validated by TLC (Trace.tla)",
+    text="TLC model-checks the mutual consistency of the seven formulas (on = X + of, off = X - of, 'what %' and 'of what' invert 'of', zero divisors) on 36 value / percentage pairs; "
+         "enumerates every phrase over 6 values x 6 percentages (negative, zero, fractional, > 100), plain and as money in 3 (thorough: all rated) currencies, with exact rational "
+         "expectations; replayed in both operand orders, both spellings p% / %p, several money spellings and two separator configurations; random decimals are executed and validated by TLC.",
+    note="trusted: renderer, f64 -> rational projection (1e-9), TLC; value sets are bounded",
+    ref="7 C05")
+CHECKS["C06"] = dict(
+    technique="TLA+ spec (Money.tla; rate table as state of SmartCalc.tla) model-checked by TLC; TLC-enumerated lines and update_currency / evaluate histories replayed into the code; random histories validated by TLC (Trace.tla)",
+    text="TLC model-checks conversion identity / transitivity / inverse, arithmetic, alias resolution and RateFrame on exact rates, and EvalFramesCalc plus the return value of update_currency "
+         "on every enumerated history; enumerates literals in every rated currency and spelling, conversions over all 1,024 ordered pairs of rated currencies under the configured rates "
+         "(expectation = term over config.json's rates) and under exact rates set through update_currency, money arithmetic, and all histories of 3 (thorough 4) calls over "
+         "update_currency(code | alias | unknown) / evaluate; random histories of 12..40 calls with exact rates are executed and validated by TLC.",
+    note="trusted: renderer, projection, double-precision evaluation of terms over configured rates (1e-9), TLC; amounts, history depth and the history alphabet are bounded",
+    ref="7 C06")
+
 NOT_YET = {
 }
 
